@@ -47,6 +47,14 @@ def ruleFormats : List (String × List String) := [
   ("inputFieldNotInput", ["Expected input type for field \"%s\" on \"%s\" but got \"%s\""])
 ]
 
+/-- `_replace_types_and_directives`: `busted_cache = busted_cache or ...` in the type loop (T3 fix) -/
+def replaceAccumulates : Bool := true
+/-- `_replace_types_and_directives` performs every refusal before the first mutation (fix C13-T3b) -/
+def replaceAtomic : Bool := true
+/-- a replaced / added / removed directive busts the caches (fix C13-T3b) -/
+def replaceDirectivesBust : Bool := true
+def specifiedDirectives : List String := ["include", "skip", "deprecated"]
+
 /-- the proposed fix C13-S4-S6 is present in the working tree -/
 def fixS4S6 : Bool := true
 end PyGql.Generated.SchemaValidTables
